@@ -151,7 +151,7 @@ func droppedErrors(r *Run, rule string, floor int) {
 			continue
 		}
 		f := f
-		Instrs(f, func(in ssa.Instruction) {
+		InstrsRaw(f, func(in ssa.Instruction) {
 			c, ok := in.(*ssa.Call)
 			if !ok {
 				return
